@@ -475,6 +475,24 @@ class SymArray:
     def flatten(self):
         return SymArray(self._flat(), self.dtype_tag)
 
+    # pandas Series methods (a DataFrame column read returns the column array)
+    def isna(self):
+        return self._map(lambda v: bool(getattr(v, "__sx_nan__", False)), "bool")
+
+    isnull = isna
+
+    def notna(self):
+        return self._map(lambda v: not getattr(v, "__sx_nan__", False), "bool")
+
+    notnull = notna
+
+    def to_numpy(self, dtype=None, copy=False):
+        return self.copy()
+
+    @property
+    def values(self):
+        return self
+
     ravel = flatten
 
 
@@ -493,6 +511,8 @@ def _spow(a, b):
 def _cmp(a, b, op):
     if isinstance(a, Uninit) or isinstance(b, Uninit):
         raise UninitRead()
+    if getattr(a, "__sx_nan__", False) or getattr(b, "__sx_nan__", False):
+        return op == "ne"            # IEEE: every ordered comparison with NaN is false
     ca, cb = concrete(a) if not isinstance(a, (bool, SymBool)) else None, \
         concrete(b) if not isinstance(b, (bool, SymBool)) else None
     if isinstance(a, float) and math.isinf(a) or isinstance(b, float) and math.isinf(b):
